@@ -30,7 +30,7 @@ def tree_setup(rs):
 def build(tier):
     u = unit(); T = []
     H = ["C16/cotree.h"]
-    sizes = [3, 7] if tier == "quick" else [3, 7, 15]
+    sizes = [3, 7]     # reserved_size 15 was tried in the thorough tier: OK_lemma / bisect_in / bisect_near exhaust 40 GB (undecided), so both tiers stop at 7
     for rs in sizes:
         bound = {"unwind": 2 * rs + 4, "note": "every well-formed tree of reserved_size %d (result capacity up to %d); loops unwound with unwinding assertions" % (rs, 2 * rs + 1)}
         glob = "uint64_t G_idx[%d]; MPZ_T G_dat[%d];" % (rs + 2, rs + 1)
